@@ -21,6 +21,7 @@ import (
 	"context"
 	"errors"
 	"fmt"
+	"math/rand"
 	"os"
 	"path/filepath"
 	"sort"
@@ -66,6 +67,7 @@ type scenario struct {
 	StaleTrk bool     `json:"stale_tracking,omitempty"`
 	Updates  []upd    `json:"updates"`
 	N        int      `json:"commits"`
+	Shape    string   `json:"new_commit_shape"`
 
 	remote0, local0 string
 	remoteRefs      map[string]string
@@ -210,6 +212,7 @@ func run(c *vf.Ctx) {
 	c.Extra("git_invocations", gitx.Calls.Load())
 	c.Floor("exchanges judged", c.Counter("exchanges"), c.N(55, 350))
 	c.Floor("pushes reported successful", c.Counter("push_ok"), c.N(25, 180))
+	c.Floor("distinct shapes of the new-commit DAG (merge gadget x committer-time order)", c.SeenCount("new_commit_shapes"), c.N(5, 12))
 	c.Floor("cells with a successful push", c.SeenCount("cells_ok"), wantCells)
 	c.Floor("non-fast-forward refused (remote unchanged)", c.Counter("rule_nonff_refused"), c.N(3, 10))
 	c.Floor("non-fast-forward applied when forced", c.Counter("rule_force_applied"), c.N(3, 10))
@@ -278,6 +281,17 @@ func (e *env) build(i int) *scenario {
 	}
 	same := r.Intn(k)
 	nw := k + r.Intn(n-k)
+	// In most scenarios the NEW commits of ok/ff (and ok/new) form a merge gadget on top of old
+	// commits: merges whose parents are shared with other new children, in varied committer-time
+	// orders, so that the object selection of the push has to walk every parent of every merge.
+	sc.Shape = "plain"
+	if r.Intn(10) < 8 {
+		var xTip int
+		d, xTip, a, sc.Shape = addGadget(r, h, k)
+		if xTip >= 0 {
+			nw = xTip
+		}
+	}
 	local := &gen.History{Commits: h.Commits, Branches: map[string]int{"ok/ff": d, "div": dl, "same": same, "ok/new": nw, "master": same}, Tags: map[string]int{"t-new": nw}, ATags: map[string]int{"at-new": d}}
 	remote := &gen.History{Commits: h.Commits[:k], Branches: map[string]int{"ok/ff": a, "div": x, "same": same, "rdel": r.Intn(k), "ronly": r.Intn(k), "ok/stale": r.Intn(k), "master": same}, Tags: map[string]int{}, ATags: map[string]int{}}
 	sc.remote0 = filepath.Join(e.work, fmt.Sprintf("base-r-%d.git", i))
@@ -427,6 +441,73 @@ func (e *env) build(i int) *scenario {
 	return sc
 }
 
+// addGadget appends new commits to h (indices >= len before the call, hence unknown to the remote)
+// and returns the tip for ok/ff, an optional second tip for ok/new (-1 if none), the old commit
+// (< k) the gadget grows from (the remote's ok/ff) and a label.
+//
+//	double:   P1=c(a) P2=c(b) M=m(P1,P2) X=c(P1) W=m(X,M)|m(M,X)   tip W
+//	two-tips: the same without W                                   tips M and X
+//	criss:    P1=c(a) P2=c(a) M1=m(P1,P2) M2=m(P2,P1) T=m(M1,M2)   tip T
+//	octopus:  P1=c(a) P2=c(b) P3=c(a) M=m(P1,P2,P3) X=c(P1) W=m(X,M)
+//
+// Committer times: X newer than / equal to / older than the sibling merge M, or all random with ties.
+func addGadget(r *rand.Rand, h *gen.History, k int) (tip, xTip, base int, label string) {
+	a, b := r.Intn(k), r.Intn(k)
+	t0 := int64(1600100000)
+	mode := []string{"x-newer", "x-newer", "equal", "x-older", "random"}[r.Intn(5)]
+	tm := func(role string) int64 {
+		switch mode {
+		case "x-newer":
+			return map[string]int64{"p": t0, "m": t0 + 200, "x": t0 + 300, "w": t0 + 400}[role]
+		case "x-older":
+			return map[string]int64{"p": t0, "m": t0 + 300, "x": t0 + 200, "w": t0 + 400}[role]
+		case "equal":
+			return map[string]int64{"p": t0, "m": t0 + 200, "x": t0 + 200, "w": t0 + 200}[role]
+		}
+		return t0 + int64(r.Intn(4))*100
+	}
+	mk := func(role string, parents ...int) int {
+		idx := len(h.Commits)
+		tree := h.Commits[parents[0]].Tree.Clone()
+		for _, p := range parents[1:] {
+			for path, f := range h.Commits[p].Tree {
+				if strings.HasPrefix(path, "gadget-") {
+					tree[path] = f
+				}
+			}
+		}
+		tree[fmt.Sprintf("gadget-%d", idx)] = gen.File{Mode: "100644", Content: []byte(fmt.Sprintf("gadget commit %d %s\n", idx, role))}
+		t := tm(role)
+		h.Commits = append(h.Commits, gen.Commit{Parents: parents, Tree: tree, Time: t, ATime: t, Zone: "+0000", Msg: fmt.Sprintf("gadget %s %d\n", role, idx)})
+		return idx
+	}
+	kind := []string{"double", "double", "two-tips", "criss", "octopus"}[r.Intn(5)]
+	switch kind {
+	case "two-tips":
+		p1, p2 := mk("p", a), mk("p", b)
+		m := mk("m", p1, p2)
+		x := mk("x", p1)
+		return m, x, a, kind + "/" + mode
+	case "criss":
+		p1, p2 := mk("p", a), mk("p", a)
+		m1 := mk("m", p1, p2)
+		m2 := mk("x", p2, p1)
+		return mk("w", m1, m2), -1, a, kind + "/" + mode
+	case "octopus":
+		p1, p2, p3 := mk("p", a), mk("p", b), mk("p", a)
+		m := mk("m", p1, p2, p3)
+		x := mk("x", p1)
+		return mk("w", x, m), -1, a, kind + "/" + mode
+	}
+	p1, p2 := mk("p", a), mk("p", b)
+	m := mk("m", p1, p2)
+	x := mk("x", p1)
+	if r.Intn(2) == 0 {
+		return mk("w", x, m), -1, a, kind + "/" + mode
+	}
+	return mk("w", m, x), -1, a, kind + "-mx/" + mode
+}
+
 func cfgAppend(path, s string) {
 	f, err := os.OpenFile(path, os.O_APPEND|os.O_WRONLY, 0o644)
 	if err != nil {
@@ -573,7 +654,8 @@ func (e *env) judge(sc *scenario, cl cell, res result) {
 	if res.err != "" {
 		outcome = "refused"
 	}
-	c.Eval(sc.Kind+"|"+cl.name()+"|"+outcome, true)
+	c.Eval(sc.Kind+"|"+cl.name()+"|"+outcome+"|"+sc.Shape, true)
+	c.Seen("new_commit_shapes", sc.Shape)
 	c.Count("exchanges", 1)
 	replay := map[string]any{"scenario": sc, "cell": cl.name(), "err": res.err, "remote_before": sc.remoteRefs, "remote_after": res.after}
 	key := func(clause string) string { return clause + ":" + sc.Kind + ":" + cl.pair() }
